@@ -60,8 +60,6 @@ Definition o_gerr (e : gerr) : otm :=
   | Overlap gl gr => OL [ON 1; OS (un gl); OS (un gr)]
   end.
 
-Definition names_eqb (x y : list name) : bool := list_eqb str_eqb x y.
-
 Definition run_case (tb : list str) (c : case) : otm :=
   let g := option_map (conv_groups tb) (c_groups c) in
   let k := option_map (conv_kerning tb) (c_kerning c) in
@@ -92,8 +90,7 @@ Definition run_case (tb : list str) (c : case) : otm :=
             if v3 then (false, false)
             else
               let k0 := kern_or_empty k in
-              (negb (names_eqb (cands1 g0 k0 interned) (cands1 g0 k0 glyphs)
-                     && names_eqb (cands2 g0 k0 interned) (cands2 g0 k0 glyphs)),
+              (negb (same_candsb g0 k0 interned glyphs),
                match upconvert_tables g0 k0 interned with
                | Ok (_, r1, r2) => negb (no_pair_collision r1 r2 k0)
                | _ => false
